@@ -1,8 +1,6 @@
 #!/bin/sh
-# usage: ingest_mutant.sh <prop> <a|b> '<demo command (cargo test ... without CARGO_TARGET_DIR)>' <checks...>
-# 1. confirms the mutant in /tmp/wt-verify, 2. runs the given checks against it, 3. prints a summary.
-P=$1; M=$2; CMD=$3; shift 3
-SRC=/tmp/wt-$P
-echo "########## $P-$M"
+# usage: ingest_mutant.sh <srcdir> <a|b|c> '<demo command>' <checks...>
+SRC=$1; M=$2; CMD=$3; shift 3
+echo "########## $SRC $M"
 /verif/lib/confirm_mutant.sh $SRC/mutant-$M.diff $SRC/mutant-$M-demo.diff "$CMD" 2>&1
 /verif/lib/try_mutant.sh $SRC/mutant-$M.diff "$@" 2>&1
